@@ -18,6 +18,7 @@ func checkC06(p *Prog, res *Result, tier string) {
 	res.rule("C06-R1", "one event per successful write with the revision of the stored version (sink validity; event fields copied from the slot; only valid slots)", 7)
 	res.rule("C06-R2", "range-style reads load the committed revision before the scan; header and default read revision derive from that load only", 6)
 	res.rule("C06-R3", "unknown-outcome writes are queued before commit (C09-R1)", 2)
+	res.rule("C06-R7", "replayed and live events reach the client through one sender at a time, and each watcher's batches through one receiver (C05-R12): applying events in delivery order otherwise goes back to an older value", 3)
 	res.rule("C06-R5", "listed and streamed data are not overwritten after they were handed over (C05-R9)", 2)
 	res.rule("C06-R6", "a key vanishes from reads only with a DELETE event: compaction keeps the deletion marker until the versions it hides are gone (C07-R3/R4), expiry touches event keys only and only marks older than the TTL (C17-R1/R2)", 8)
 	res.rule("C06-R4", "the listed state is the complete snapshot: partition borders contiguous and realigned, retried attempts start empty, a failed partition fails the read (C13-R5/R6/R8)", 5)
@@ -187,6 +188,15 @@ func checkC06(p *Prog, res *Result, tier string) {
 			if o.Rule == "C17-R1" || o.Rule == "C17-R2" {
 				res.add("C06-R6", o.Rule+" "+o.Construct, o.Status, o.Pos, o.Detail)
 			}
+		}
+	}
+
+	// ---- R7: the events that follow a list arrive in revision order (C05-R12) ----
+	{
+		sub5 := newResult("C05")
+		checkWatchChannelPeers(p, w, sub5, "C05-R12")
+		for _, o := range sub5.Obls {
+			res.add("C06-R7", o.Rule+" "+o.Construct, o.Status, o.Pos, o.Detail)
 		}
 	}
 
